@@ -371,6 +371,9 @@ bool Terminal::Impl::executeRunHistoryCmd(SessionContext *s, const Args &args)
             s->wp_conn->send(s->token, "Error: index out of range.\r\n");
     } catch (const invalid_argument &e) {
         s->wp_conn->send(s->token, "Error: parse index fail.\r\n");
+    } catch (const out_of_range &e) {
+        //! std::stoi() throws this one if the number doesn't fit into int
+        s->wp_conn->send(s->token, "Error: index out of range.\r\n");
     }
 
     return false;
